@@ -23,7 +23,9 @@ Record case := mkCase {
   c_recompiles : bool;
   c_fixed_gone : bool;
   c_scan_equal : bool;
-  c_unsat : bool }.
+  c_unsat : bool;                         (* nothing to compare (no equivalence fix / original does not compile) *)
+  c_span_text_ok : bool }.                (* every patch names the file of this case and its span covers
+                                             the text its diagnostic is about *)
 
 Fixpoint bytes_eqb (a b : list N) : bool :=
   match a, b with
@@ -56,4 +58,4 @@ Definition spec_case (c : case) : bool :=
   | Some t => bytes_eqb t (splice ps (c_src c))
   | None => false
   end &&
-  c_recompiles c && c_fixed_gone c && (c_scan_equal c || c_unsat c).
+  c_recompiles c && c_fixed_gone c && (c_scan_equal c || c_unsat c) && c_span_text_ok c.
